@@ -217,7 +217,7 @@ CONSTS = [
 
 # whole functions as Prelude/PyAst syntax (gen/F_online.v); world coq/Flow/World_online.v, tie theorems coq/Proofs/Flow_online_conv.v
 FLOWS = [
-    Flow("k_flow_process_ept_map_result", F, "_process_ept_map_result", props=P),
+    Flow("k_flow_process_ept_map_result", F, "_process_ept_map_result", props=("C17", "C18")),   # tie: coq/Proofs/Flow_online_ept.v
     Flow("k_flow_process_get_key_result", F, "_process_get_key_result", props=P),
     Flow("k_flow_sync_get_key", F, "_sync_get_key", props=P),
     Flow("k_flow_async_get_key", F, "_async_get_key", props=P),
